@@ -140,6 +140,68 @@ fn run_seq(cap: usize, ops: &[HOp]) -> Result<bool, (String, String)> {
     Ok(nontrivial)
 }
 
+/// Large buffers, around the sizes where an 8- or 16-bit offset would wrap: fill well beyond the capacity (evictions), walk
+/// to the oldest entry and back, re-submit a middle entry, walk again. Strings are compared at every step, the raw state at
+/// the milestones. `len_base`/`len_var`: line lengths; lines are distinct by their index.
+fn run_big(cap: usize, len_base: usize, len_var: usize, salt: u32) -> Result<(), (String, String)> {
+    let mut h = History::new(OwnedBuf(vec![0u8; cap]));
+    let mut m = RefHistory::new(cap);
+    let line = |i: usize| -> String {
+        let n = len_base + (i.wrapping_mul(7 + salt as usize) % (len_var + 1));
+        let mut s = format!("l{}-", i);
+        let fill = ["é", "x", "₿", "-", "y"];
+        let mut k = 0;
+        while s.len() < n {
+            s.push_str(fill[(i + k) % fill.len()]);
+            k += 1;
+        }
+        s
+    };
+    let total = (cap + cap / 3) / (len_base + len_var / 2 + 1) + 3;
+    for i in 0..total {
+        let l = line(i);
+        m.push(&l);
+        h.push(&l);
+    }
+    compare_state(&view(&h), &m, &[None]).map_err(|(e, o)| (format!("after {} submissions into a {}-byte buffer: {}", total, cap, e), o))?;
+    let n = m.entries.len();
+    for k in 0..n + 2 {
+        let (want, got) = (m.older(), h.next_older().map(|s| s.to_string()));
+        if got != want {
+            return Err((format!("{}-byte buffer, {} entries, Up #{} shows {:?}", cap, n, k + 1, want), format!("{:?}", got)));
+        }
+    }
+    compare_state(&view(&h), &m, &[m.pos]).map_err(|(e, o)| (format!("after walking to the oldest entry of a {}-byte buffer: {}", cap, e), o))?;
+    for k in 0..n + 2 {
+        let (want, got) = (m.newer(), h.next_newer().map(|s| s.to_string()));
+        if got != want {
+            return Err((format!("{}-byte buffer, {} entries, Down #{} shows {:?}", cap, n, k + 1, want), format!("{:?}", got)));
+        }
+    }
+    if n >= 3 {
+        // re-submit entries near the end, in the middle and near the start of the buffer
+        for idx in [n - 2, n / 2, 1] {
+            let l = m.entries[idx.min(m.entries.len() - 1)].clone();
+            m.push(&l);
+            h.push(&l);
+            compare_state(&view(&h), &m, &[None]).map_err(|(e, o)| (format!("after re-submitting {:?} into a {}-byte buffer: {}", l, cap, e), o))?;
+            for k in 0..3 {
+                let (want, got) = (m.older(), h.next_older().map(|s| s.to_string()));
+                if got != want {
+                    return Err((format!("{}-byte buffer after re-submitting {:?}: Up #{} shows {:?}", cap, l, k + 1, want), format!("{:?}", got)));
+                }
+            }
+            m.push(&line(total + idx));
+            h.push(&line(total + idx));
+        }
+    }
+    Ok(())
+}
+
+fn big_json(cap: usize, len_base: usize, len_var: usize, salt: u32) -> Value {
+    json!({"hist_buf": cap, "len_base": len_base, "len_var": len_var, "salt": salt})
+}
+
 fn seq_json(cap: usize, ops: &[HOp]) -> Value {
     json!({"hist_buf": cap, "ops": ops.iter().map(hop_json).collect::<Vec<_>>()})
 }
@@ -394,6 +456,29 @@ fn run_shard(ctx: &ShardCtx) {
         },
     );
 
+    // G4: large buffers around 2^8 and 2^16 ("for every history-buffer size")
+    let caps = prop_oneof![
+        4 => 250usize..=262,
+        4 => 65_530usize..=65_542,
+        1 => Just(70_000usize),
+        1 => Just(131_080usize),
+        2 => 500usize..=3000,
+    ];
+    ctx.run_prop(
+        "history-big",
+        ctx.tier.pick(400, 4_000),
+        (caps, 4usize..=40, 0usize..=30, 0u32..16),
+        |(cap, b, v, s)| big_json(*cap, *b, *v, *s),
+        |(cap, b, v, s)| match run_big(*cap, *b, *v, *s) {
+            Ok(()) => {
+                ctx.class(if *cap > 60_000 { "big:buffers beyond 2^16 bytes" } else { "big:buffers beyond 2^8 bytes" });
+                ctx.nontrivial(fingerprint(&("big", cap, b, v, s)), || big_json(*cap, *b, *v, *s));
+                Ok(())
+            }
+            Err((e, o)) => Err(Failure::new("history-big", Value::Null, e, o)),
+        },
+    );
+
     // G3
     ctx.run_prop("history-cli", ctx.tier.pick(600_000, 6_000_000), cli_case_strategy(), cli_case_json, |c| match run_cli(c) {
         Ok(nt) => {
@@ -410,6 +495,13 @@ fn run_shard(ctx: &ShardCtx) {
 fn replay(sub: &str, case: &Value) -> Verdict {
     let fail = |e: String, o: String| Failure::new(sub, case.clone(), e, o);
     match sub {
+        "history-big" => run_big(
+            case["hist_buf"].as_u64().unwrap_or(0) as usize,
+            case["len_base"].as_u64().unwrap_or(4) as usize,
+            case["len_var"].as_u64().unwrap_or(0) as usize,
+            case["salt"].as_u64().unwrap_or(0) as u32,
+        )
+        .map_err(|(e, o)| fail(e, o)),
         "history-closure" => {
             let cap = case["hist_buf"].as_u64().unwrap_or(0) as usize;
             let st = RefHistory {
